@@ -335,6 +335,13 @@ def r4_markers(P, rep, ctx):
         d = dict(lits)
         is_ds = d.get(f"isinstance({a}, h5py.Dataset)")
         want = f"_is_del_mark({a}[()])" if is_ds else f"_is_del_mark({a})"
+        if is_ds and isinstance(val, ast.Constant) and val.value is False:
+            # "cannot be a marker" shortcut: sound only if the path found the dataset to differ from what DEL_VALUE
+            # (np.void(b'\x7f'): scalar, opaque kind, one byte) looks like when stored
+            MARKER_FACTS = {f"{a}.shape": ("()",), f"{a}.dtype.kind": ("'V'",), f"{a}.dtype.itemsize": ("1",), f"{a}.ndim": ("0",), f"{a}.size": ("1",), f"{a}.nbytes": ("1",)}
+            differs = any((not tv) and any(k == f"{lhs} == {v_}" or k == f"{v_} == {lhs}" for lhs, vs in MARKER_FACTS.items() for v_ in vs) for k, tv in lits)
+            ok = ok and differs
+            continue
         ok = ok and is_ds is not None and norm(val) == want
     rep.check(ok, "C01.R4", f.fi.qual, "_node_is_del_mark reads dataset values with [()] and attribute values as is", f.fi.loc(), construct="_node_is_del_mark", message="_node_is_del_mark does not dereference datasets with [()]")
     f = F(ctx, P.func(f"{O}._node_is_virtual"))
